@@ -457,6 +457,57 @@ func checkC15(w *World, r *Report) {
 		}
 		return true
 	}
+	// every other function that answers a name out of the template table does so under the cache
+	// flag as well: a second reader "for the hot path" that skips Load skips the flag with it
+	for _, fn := range w.pkgFuncs() {
+		if parts[fn] {
+			continue
+		}
+		instrsOf(fn, func(in ssa.Instruction) {
+			x, ok := in.(*ssa.Lookup)
+			if !ok || !isTemplatesMap(x.X) {
+				return
+			}
+			// a read whose result is handed out (flows to a return), not bookkeeping
+			returned := false
+			seenV := map[ssa.Value]bool{}
+			var flow func(v ssa.Value, d int)
+			flow = func(v ssa.Value, d int) {
+				if seenV[v] || d > 5 || returned || v.Referrers() == nil {
+					return
+				}
+				seenV[v] = true
+				for _, ref := range *v.Referrers() {
+					switch y := ref.(type) {
+					case *ssa.Return:
+						returned = true
+					case *ssa.Extract:
+						flow(y, d+1)
+					case *ssa.Phi:
+						flow(y, d+1)
+					case *ssa.Store:
+						if al, ok := y.Addr.(*ssa.Alloc); ok && al.Referrers() != nil {
+							for _, r2 := range *al.Referrers() {
+								if l, ok := r2.(*ssa.UnOp); ok {
+									flow(l, d+1)
+								}
+							}
+						}
+					}
+				}
+			}
+			flow(x, 0)
+			if !returned {
+				return
+			}
+			n4++
+			if cacheFlow(fn).at(in) {
+				r.ok("R15.4", ssaName(fn), "cache consulted only when caching is enabled", w.posOf(in.Pos()), "lookup dominated by the true edge of the cache flag", true)
+			} else {
+				r.bad("R15.4", ssaName(fn), "cache consulted only when caching is enabled", w.posOf(in.Pos()), "a template is handed out of the table although caching may be disabled: after SetCache(false) the names that were cached before keep rendering their old source, while Load re-reads the loaders")
+			}
+		})
+	}
 	for _, part := range partList {
 		pname := ssaName(part)
 		instrsOf(part, func(in ssa.Instruction) {
